@@ -456,9 +456,10 @@ where
                     // We don't reset the chunk position when we leave a scope, so we need to do it here.
                     chunk.reset();
 
-                    self.chunk.set(chunk.raw);
-
                     if let Some(ptr) = f(chunk.raw, layout) {
+                        // only make it the current chunk once the request fits; a request that fails
+                        // after walking over the retained chunks must leave the allocator where it was
+                        self.chunk.set(chunk.raw);
                         return Ok(ptr);
                     }
                 }
